@@ -21,7 +21,7 @@
  "unwind": 64,
  "unwindset": {"build_channel.0": 9},
  "unwind_reason": "only the harness loop that builds the 8 cache entries and DFCC library loops are unwound; the function's loop is closed by its loop contract",
- "defines": ["CFG_BS=16"],
+ "defines": ["CFG_BS=16", "CFG_NO_PTHREAD"],
  "functions": ["lib/ext2fs/unix_io.c:unix_write_blk64"],
  "assumes": ["IO_FLAG_THREADS clear", "no write_error handler installed", "block size in {16, 1024}: 16 is a configuration bound for tractability (the function only adds the block size to a cursor and passes it on as a length), 1024 the smallest real block size", "fewer than 2^31-512 cache accesses per channel (int access clock)", "caller's buffer does not alias a cache buffer", "block numbers below 2^46", "CHANNEL_FLAGS_WRITETHROUGH is set before any block is dirtied (nothing in the tree toggles it)"],
  "backend": "cadical",
@@ -43,7 +43,7 @@
  "unwind": 64,
  "unwindset": {"build_channel.0": 9},
  "unwind_reason": "only the harness loop that builds the 8 cache entries and DFCC library loops are unwound",
- "defines": ["CFG_BS=16"],
+ "defines": ["CFG_BS=16", "CFG_NO_PTHREAD"],
  "functions": ["lib/ext2fs/unix_io.c:unix_write_blk64"],
  "assumes": ["IO_FLAG_THREADS clear", "no write_error handler installed", "block size in {16, 1024} (16: configuration bound)", "requests of at most 8 blocks / 8*block_size bytes (the path is one flush and one device request whatever the size)", "block numbers below 2^46"],
  "backend": "cadical",
@@ -64,7 +64,7 @@
  "unwind": 64,
  "unwindset": {"build_channel.0": 9, "unix_write_blk64.0": 5},
  "unwind_reason": "cached path only for 1..WRITE_DIRECT_SIZE(4) blocks",
- "defines": ["CFG_BS=16"],
+ "defines": ["CFG_BS=16", "CFG_NO_PTHREAD"],
  "functions": ["lib/ext2fs/unix_io.c:unix_write_blk64"],
  "assumes": [],
  "backend": "cadical",
@@ -86,7 +86,7 @@
  "unwind": 64,
  "unwindset": {"build_channel.0": 9, "find_cached_block.0": 9},
  "unwind_reason": "only the harness loop that builds the 8 cache entries and DFCC library loops are unwound; the function's loop is closed by its loop contract",
- "defines": ["CFG_BS=16"],
+ "defines": ["CFG_BS=16", "CFG_NO_PTHREAD"],
  "functions": ["lib/ext2fs/unix_io.c:unix_write_blk64"],
  "assumes": ["IO_FLAG_THREADS clear", "no write_error handler installed", "block size in {16, 1024}: 16 is a configuration bound for tractability (the function only adds the block size to a cursor and passes it on as a length), 1024 the smallest real block size", "fewer than 2^31-512 cache accesses per channel (int access clock)", "caller's buffer does not alias a cache buffer", "block numbers below 2^46", "CHANNEL_FLAGS_WRITETHROUGH is set before any block is dirtied (nothing in the tree toggles it)"],
  "backend": "cadical",
@@ -103,16 +103,16 @@
  "tier": "wip",
  "harness": "h_write_cached",
  "enforce": ["unix_write_blk64"],
- "replace": ["reuse_cache", "flush_cached_blocks", "raw_write_blk", "memcpy"],
+ "replace": ["flush_cached_blocks", "raw_write_blk"],
  "unwind": 64,
  "unwindset": {"build_channel.0": 9, "find_cached_block.0": 9, "unix_write_blk64.0": 5},
  "unwind_reason": "cached path only for 1..WRITE_DIRECT_SIZE(4) blocks",
- "defines": ["CFG_BS=16"],
+ "defines": ["CFG_BS=16", "CFG_NO_PTHREAD", "CFG_COARSE_FRAME"],
  "functions": ["lib/ext2fs/unix_io.c:unix_write_blk64"],
  "assumes": [],
  "backend": "cadical",
  "timeout": 300,
- "cbmc_flags": ["--object-bits", "10"],
+ "cbmc_flags": ["--object-bits", "9"],
  "native": false
 }
 */
@@ -141,7 +141,11 @@
 #define BLK_MAX (1ULL << 46)
 #define WT(ch) ((ch)->flags & CHANNEL_FLAGS_WRITETHROUGH)
 #define data PD(channel)	/* the frame macros speak of `data` */
+#ifdef CFG_COARSE_FRAME
+#define CACHE_FRAME __CPROVER_object_whole(channel->private_data), ALL_CBUFS
+#else
 #define CACHE_FRAME ALL_ENTRY_FIELDS, data->access_time, ALL_CBUFS
+#endif
 /*
  * C17, write side.  Statement (from the property, not from the code):
  *   coherent before => after a successful write the cache/device pair is coherent w.r.t. the byte just written when the
@@ -162,7 +166,11 @@ static errcode_t unix_write_blk64(io_channel channel, unsigned long long block, 
 	ENSURES(!g_wfail || RET != 0)
 	ENSURES(RET == 0 || g_covered || coherent(PD(channel)))
 	ENSURES(!WT(channel) || !any_dirty(PD(channel)))
+	#ifdef CFG_COARSE_FRAME
+	ASSIGNS(CACHE_FRAME, g_disk, g_nwrites, g_wfail);
+#else
 	ASSIGNS(CACHE_FRAME, PD(channel)->io_stats.bytes_written, g_disk, g_nwrites, g_wfail);
+#endif
 #undef data
 
 static unsigned char *UBUF;	/* the caller's buffer */
